@@ -96,7 +96,7 @@ def fmt_idx(v):
         i = j + 1
     return ','.join(out)
 
-def history(rng, fs, nops, lock_heavy=False):
+def history(rng, fs, nops, lock_heavy=False, valid_only=False):
     cfg = FS[fs]
     live = []      # names the generator believes exist (files)
     dirs = ['']
@@ -114,7 +114,7 @@ def history(rng, fs, nops, lock_heavy=False):
             ty = rng.choice(cfg['types'])
             aux = rng.choice([0, 0x2000, 0x0801, 0xffff]) if fs == 'prodos' else None
             p = full(name)
-            ops.append(f"P~{p}~{spec}~{eil}~{'' if ty is None else ty}~{'' if aux is None else aux}")
+            ops.append(f"P~{p}~{spec}~{eil}~{'' if ty is None else ty}~{'' if aux is None else aux}~v")
             live.append(p)
         elif r < 0.57:
             p = rng.choice(live)
@@ -149,7 +149,49 @@ def history(rng, fs, nops, lock_heavy=False):
                 ops.append(f"R~{p}~{q.rsplit('/', 1)[-1].split(':')[-1]}")
         elif r < 0.94:
             ops.append(rng.choice([f"D~NOSUCH{rng.randrange(100)}", f"R~NOSUCH{rng.randrange(100)}~ZZ", f"L~NOSUCH{rng.randrange(100)}"]))
+        elif valid_only:
+            continue
         else:
             bad = rng.choice(['', 'A' * 40, 'BAD*NAME', '9STARTDIGIT' * 2, 'A,B', 'NAME/'])
             ops.append(f"P~{bad or 'X' * 70}~0~U~~")
     return ';'.join(ops)
+
+
+def dirfill_history(rng, fs, cap_hint):
+    """fill a directory to its capacity with one-unit files (the last few puts are expected to be refused), delete some,
+    then store larger files into the freed slots: exercises the last slot, slot reuse and allocation next to a full directory"""
+    cfg = FS[fs]
+    ops = []
+    names = []
+    ext = '.D' if cfg['ext'] else ''
+    for i in range(cap_hint + 2):
+        n = f"F{i}{ext}"
+        names.append(n)
+        ops.append(f"P~{n}~0~{rng.choice(['U', '1', '100'])}~~")
+    victims = rng.sample(names[:cap_hint], min(4, cap_hint))
+    for v in victims[:2]:
+        ops.append(f"D~{v}")
+    ops.append(f"P~NEW1{ext}~0-{rng.choice([1, 2, 5])}~U~~")
+    ops.append(f"P~NEW2{ext}~0-{rng.choice([1, 3, 9])}~77~~")
+    ops.append(f"D~{victims[2]}" if len(victims) > 2 else "D~NEW1" + ext)
+    ops.append(f"R~{names[cap_hint - 1]}~LAST{ext}")
+    ops.append(f"P~NEW3{ext}~F-2~U~~")
+    return ';'.join(ops)
+
+DIR_CAPS = {'dos33': 105, 'dos32': 84, 'prodos': 51, 'pascal': 77, 'fat': None, 'cpm2': None, 'cpm3': None}
+
+
+def needs_dense(fs, n):
+    if fs in ('dos33', 'dos32'):
+        return n + 1 + (n - 1) // 122
+    if fs == 'prodos':
+        return n + (1 if n > 1 else 0) + ((1 + (n - 1) // 256) if n > 256 else 0)
+    return n
+
+def exactfit_history(rng, fs, b, delta):
+    """leave exactly needs(b)+delta units free, then store a dense file of b chunks (must be accepted for delta>=0),
+    delete it (free count restored), store it again with a short last chunk"""
+    ext = '.T' if FS[fs]['ext'] else ''
+    k = needs_dense(fs, b) + delta
+    last = f"0-{b - 1}" if b > 1 else "0"
+    return ';'.join([f"P~KEEP{ext}~0-2~U~~~v", f"Z~{k}", f"P~T{ext}~{last}~U~~~v", f"D~T{ext}", f"P~T2{ext}~{last}~1~~~v", f"D~KEEP{ext}", f"P~AFTER{ext}~0-1~U~~~v"])
